@@ -7,6 +7,7 @@ import warnings
 from .. import core
 from ..gen import descriptions as G
 from ..indep import refenc, mcbor
+from ..mon import faults
 
 HASH_NAMES = list(G.HASHES)
 
@@ -15,6 +16,11 @@ def loop(rec, shard, nshards, total, cap_s, fn):
     """run fn(n) for the case numbers of this shard until the count or the wall-clock cap is reached"""
     rec.deadline = time.time() + cap_s
     done = 0
+    _fn = fn
+
+    def fn(n):
+        faults.new_case(n)
+        return _fn(n)
     for n in range(shard, total, nshards):
         if rec.out_of_time():
             rec.count("stopped_by_wall_clock_cap")
